@@ -2,6 +2,9 @@
 //! script = [ma_mode; ma_fixed; pred_mode; bkind; bmax; binit; nreq; L; backoff x L;
 //!           nreq blocks [max_i; (okind payload gated ready) x L]; (op a)*]
 //! op 1 Poll a | 2 Advance a ms | 3 Complete a | 4 MakeReady a
+//! durations: below 2^40 milliseconds, 2^40 + n = n nanoseconds
+//! ma_mode: bit 0 = per-request max_attempts; ma_mode / 2 = 0 one service per request,
+//!          1 all requests through one Retry handle, 2 through clones of one handle
 //! trace = per event [r; payload; wake mask; balance; deposits; grants; denials]
 //!         ++ per request [ncalls; (start, end|-1)*] ++ [readiness-contract violations]
 use std::future::Future;
@@ -49,6 +52,10 @@ struct Shared {
     per: Mutex<Vec<PerReq>>,
     violations: AtomicUsize,
     t0: u64,
+    /// request the harness is about to submit (its poll_ready + call on a possibly shared handle)
+    starting: Mutex<Option<usize>>,
+    /// max_attempts carried by each request: every attempt must be made with the original request
+    maxes: Vec<usize>,
 }
 
 impl Shared {
@@ -63,9 +70,31 @@ impl Shared {
 /// The wrapped service: one instance (and its clones) per request id. Enforces nothing,
 /// but counts calls made on an instance that was not polled ready.
 struct Scripted {
-    id: usize,
+    /// request this instance serves; None until the first `call` on a shared handle
+    id: Option<usize>,
     sh: Arc<Shared>,
     ready: bool,
+}
+
+const DUR_FLAG: i128 = 1 << 40;
+fn dur_of(e: i128) -> Duration {
+    if e < DUR_FLAG {
+        Duration::from_millis(e.max(0) as u64)
+    } else {
+        Duration::from_nanos((e - DUR_FLAG) as u64)
+    }
+}
+
+/// Advance both clocks. Short advances go one millisecond at a time (as everywhere in the
+/// harness); long ones in a single jump (nothing but hand-polled futures lives in this runtime).
+async fn advance(ms: u64) {
+    if ms <= 64 {
+        advance_ms(ms).await;
+    } else {
+        VIRT_NS.fetch_add(ms * 1_000_000, Ordering::SeqCst);
+        tokio::time::advance(Duration::from_millis(ms)).await;
+        settle().await;
+    }
 }
 
 impl Clone for Scripted {
@@ -80,12 +109,17 @@ impl Service<Req> for Scripted {
     type Future = Pin<Box<dyn Future<Output = Result<i128, E>> + Send>>;
 
     fn poll_ready(&mut self, cx: &mut Context<'_>) -> Poll<Result<(), E>> {
-        let k = self.sh.per.lock().unwrap()[self.id].ncalls;
+        let starting = *self.sh.starting.lock().unwrap();
+        let Some(id) = starting.or(self.id) else {
+            self.ready = true;
+            return Poll::Ready(Ok(()));
+        };
+        let k = self.sh.per.lock().unwrap()[id].ncalls;
         if k == 0 {
             self.ready = true;
             return Poll::Ready(Ok(()));
         }
-        let e = self.sh.entry(self.id, k);
+        let e = self.sh.entry(id, k);
         match e.ready {
             0 => {
                 self.ready = true;
@@ -94,7 +128,7 @@ impl Service<Req> for Scripted {
             1 => Poll::Ready(Err(E { code: 100000 + e.payload, flag: true })),
             _ => {
                 let mut per = self.sh.per.lock().unwrap();
-                let p = &mut per[self.id];
+                let p = &mut per[id];
                 if p.released {
                     self.ready = true;
                     Poll::Ready(Ok(()))
@@ -107,10 +141,11 @@ impl Service<Req> for Scripted {
     }
 
     fn call(&mut self, req: Req) -> Self::Future {
-        if !self.ready {
+        if !self.ready || self.sh.maxes.get(req.id).copied() != Some(req.max) {
             self.sh.violations.fetch_add(1, Ordering::SeqCst);
         }
         self.ready = false;
+        self.id = Some(req.id);
         let sh = self.sh.clone();
         let id = req.id;
         let now = sh.now_ms();
@@ -178,13 +213,15 @@ fn run(s: &[i128]) -> Vec<i128> {
     let (bmax, binit) = (zn(s, 4).max(0) as usize, zn(s, 5).max(0) as usize);
     let n = zn(s, 6).max(0) as usize;
     let l = zn(s, 7).max(0) as usize;
-    let backoffs: Vec<u64> = (0..l).map(|k| zn(s, 8 + k).max(0) as u64).collect();
+    let backoffs: Vec<Duration> = (0..l).map(|k| dur_of(zn(s, 8 + k))).collect();
+    let per_request = ma_mode.rem_euclid(2) != 0;
+    let handle_mode = ma_mode.div_euclid(2);
     let blk = 1 + 4 * l;
     let mut per = Vec::new();
     let mut maxes = Vec::new();
     for i in 0..n {
         let base = 8 + l + i * blk;
-        maxes.push(if ma_mode == 0 { ma_fixed.max(0) as usize } else { zn(s, base).max(0) as usize });
+        maxes.push(if !per_request { ma_fixed.max(0) as usize } else { zn(s, base).max(0) as usize });
         let entries = (0..l)
             .map(|k| Entry {
                 okind: zn(s, base + 1 + 4 * k),
@@ -203,12 +240,10 @@ fn run(s: &[i128]) -> Vec<i128> {
 
     let rt = paused_rt();
     rt.block_on(async move {
-        let sh = Arc::new(Shared { per: Mutex::new(per), violations: AtomicUsize::new(0), t0: now_ns() });
+        let sh = Arc::new(Shared { per: Mutex::new(per), violations: AtomicUsize::new(0), t0: now_ns(), starting: Mutex::new(None), maxes: maxes.clone() });
         let mut b = RetryLayer::<Req, E>::builder();
-        b = if ma_mode == 0 { b.max_attempts(ma_fixed.max(0) as usize) } else { b.max_attempts_fn(|r: &Req| r.max) };
-        b = b.backoff(FnInterval::new(move |a: usize| {
-            Duration::from_millis(backoffs.get(a).copied().unwrap_or(0))
-        }));
+        b = if !per_request { b.max_attempts(ma_fixed.max(0) as usize) } else { b.max_attempts_fn(|r: &Req| r.max) };
+        b = b.backoff(FnInterval::new(move |a: usize| backoffs.get(a).copied().unwrap_or(Duration::ZERO)));
         b = match pred_mode {
             0 => b,
             1 => b.retry_on(|e: &E| e.flag),
@@ -225,6 +260,8 @@ fn run(s: &[i128]) -> Vec<i128> {
             b = b.budget(lg.clone() as Arc<dyn RetryBudget>);
         }
         let layer = b.build();
+        // handle_mode 1/2: one Retry service serves every request (directly / through its clones)
+        let mut handle = layer.layer(Scripted { id: None, sh: sh.clone(), ready: false });
 
         let mut callers: Vec<Option<Manual<Res>>> = (0..n).map(|_| None).collect();
         let mut tr: Vec<i128> = Vec::new();
@@ -236,9 +273,26 @@ fn run(s: &[i128]) -> Vec<i128> {
                     if !idx_ok { continue; }
                     let i = a as usize;
                     if callers[i].is_none() {
-                        let mut svc = layer.layer(Scripted { id: i, sh: sh.clone(), ready: false });
-                        futures::future::poll_fn(|cx| svc.poll_ready(cx)).await.ok();
-                        callers[i] = Some(Manual::new(svc.call(Req { id: i, max: maxes[i] })));
+                        *sh.starting.lock().unwrap() = Some(i);
+                        let req = Req { id: i, max: maxes[i] };
+                        let fut = match handle_mode {
+                            1 => {
+                                futures::future::poll_fn(|cx| handle.poll_ready(cx)).await.ok();
+                                handle.call(req)
+                            }
+                            2 => {
+                                let mut svc = handle.clone();
+                                futures::future::poll_fn(|cx| svc.poll_ready(cx)).await.ok();
+                                svc.call(req)
+                            }
+                            _ => {
+                                let mut svc = layer.layer(Scripted { id: Some(i), sh: sh.clone(), ready: false });
+                                futures::future::poll_fn(|cx| svc.poll_ready(cx)).await.ok();
+                                svc.call(req)
+                            }
+                        };
+                        *sh.starting.lock().unwrap() = None;
+                        callers[i] = Some(Manual::new(fut));
                     }
                     let m = callers[i].as_mut().unwrap();
                     if !m.alive() {
@@ -257,7 +311,7 @@ fn run(s: &[i128]) -> Vec<i128> {
                         }
                     }
                 }
-                2 => advance_ms(a.max(0) as u64).await,
+                2 => advance(a.max(0) as u64).await,
                 3 => {
                     if !idx_ok { continue; }
                     let tx = sh.per.lock().unwrap()[a as usize].tx.take();
